@@ -183,7 +183,7 @@ func init() {
 		Property:       "C03",
 		Parts:          []simkit.Part{{Name: "schemasim-c03", Fn: schemasim.Walk("C03"), NeedsCLI: true, Runs: map[string]int{"quick": 2500, "thorough": 100000}}},
 		Rule:           walkRule + "; oracle on every state a successful apply reached: HCL export evaluates back to the inspected schema (both directions), two inspections give identical HCL, the SQL export (plan empty -> inspected, dump mode) executes on a fresh engine and recreates the same schema and the same observer catalog",
-		RequiredProbes: []string{"step-applied-through-cli", "cli-export-check", "legacy-start", "successful-apply", "export-check/alter", "export-check/rebuild", "failed-apply-left-intermediate-state"},
+		RequiredProbes: []string{"hcl-export-recreated", "step-applied-through-cli", "cli-export-check", "legacy-start", "successful-apply", "export-check/alter", "export-check/rebuild", "failed-apply-left-intermediate-state"},
 		RequiredFaults: []string{"statement-error", "connection-abandoned"},
 		Real:           walkReal, Stub: walkStub, Assumptions: walkAssume,
 		SimTimeUnit: "reconciliation steps",
